@@ -190,6 +190,86 @@ example (mu : ℝ) (hmu : 0 < mu) : ∃ E : ℝ → ℝ,
     ∀ t, E t - (0 : ℝ) * Real.sin (E t) = (keplerStep mu ⟨1, 0, 1, 2, 3, 0.25⟩ t).M :=
   ⟨fun t => 0.25 + meanMotion mu 1 * t, by intro t; simp [keplerStep_eq]⟩
 
+/-! ## The propagator object: every propagation starts from the CURRENT state of the orbit -/
+
+/-- **History independence**: whatever the propagator object holds from earlier calls (`p`, `p'`: any cached elements,
+or none), `Orbit.propagate` re-reads the orbit, so the result is the update of the orbit's current elements `x` — an orbit
+object that was propagated before and then modified in place propagates like a fresh one.  (`stepf` = `keplerStep µ` or
+`j2Step µ`; tied to the code by the history cases of the correspondence run.) -/
+theorem propagate_history_independent (stepf : Elts → ℝ → Elts) (p p' : PropObj) (x : Elts) (dt : ℝ) :
+    (orbitPropagate stepf p x dt).2 = some (stepf x dt) ∧
+    (orbitPropagate stepf p x dt).2 = (orbitPropagate stepf p' x dt).2 := by
+  simp [orbitPropagate, PropObj.setOrbit]
+
+/-- after a call the object holds the elements of that call's orbit, not of an earlier one -/
+theorem propagate_overwrites_cache (stepf : Elts → ℝ → Elts) (p : PropObj) (x : Elts) (dt : ℝ) :
+    (orbitPropagate stepf p x dt).1.orbit = some x := by
+  simp [orbitPropagate, PropObj.setOrbit]
+
+example : (orbitPropagate (keplerStep 4) ⟨some ⟨9, 0.1, 0, 0, 0, 0⟩⟩ ⟨1, 0.5, 1, 2, 3, 0.25⟩ 7).2
+    = some (keplerStep 4 ⟨1, 0.5, 1, 2, 3, 0.25⟩ 7) :=
+  (propagate_history_independent _ _ ⟨none⟩ _ _).1
+
+/-! ## The final conversion: the Newton loop of `Form.M2E` is left on convergence only
+
+`kpM2eStart / kpM2eNext / kpM2eTol / kpM2eContinue` are translated from forms.py on every run; the extractor refuses any
+loop other than `X1 = next(X); while abs(X1 - X) >= tol: X = X1; X1 = next(X); return X1` (e.g. an iteration cap). -/
+
+/-- **Exit condition**: for every fuel, both conics, every start value, a returned value is a Newton update `next X` of an
+iterate `X` from which it differs by less than `tol`. -/
+theorem kpM2eLoop_exit (fuel : Nat) (e M X X1 R : ℝ) (hX : X1 = kpM2eNext X e M) (h : kpM2eLoop fuel e M X X1 = some R) :
+    ∃ Xp, R = kpM2eNext Xp e M ∧ |R - Xp| < kpM2eTol := by
+  induction fuel generalizing X X1 with
+  | zero => simp [kpM2eLoop] at h
+  | succ n ih =>
+    simp only [kpM2eLoop, kpM2eContinue, absR] at h
+    split_ifs at h with hc
+    · exact ih X1 (kpM2eNext X1 e M) rfl h
+    · refine ⟨X, ?_, ?_⟩
+      · rw [← hX]; exact (Option.some.inj h).symm
+      · rw [← Option.some.inj h]; exact not_le.mp hc
+
+theorem kpM2eTol_pos : (0 : ℝ) < kpM2eTol := by unfold kpM2eTol; norm_num
+
+/- Full statement (FALSE of the current code, known finding C05-m2e-no-return-ell): "for every bound orbit and every Δt
+   `M2E` returns, and the returned anomaly solves Kepler's equation for the advanced mean anomaly".  The Newton iteration
+   started at `M ∓ e` with `M = M₀ + n Δt` several revolutions away can fall into a cycle; the code then never returns
+   (e.g. e = 0.82598, M = 25.953).  Proved: partial correctness — IF the loop exits. -/
+/-- **The propagated state's eccentric anomaly solves Kepler's equation for the advanced mean anomaly** (bound orbits; every
+fuel; hypothesis: the loop exited): `|E − e sin E − (M + n Δt)| < 2·tol·(1 + e)`, `tol` = 1e-8 in the source. -/
+theorem kepler_anomaly_residual_partial (fuel : Nat) (mu : ℝ) (x : Elts) (dt E : ℝ) (h0 : 0 ≤ x.e) (h1 : x.e < 1)
+    (h : kpM2e fuel x.e (keplerStep mu x dt).M = some E) :
+    |E - x.e * Real.sin E - (x.M + meanMotion mu x.a * dt)| < 2 * kpM2eTol * (1 + x.e) := by
+  have hM : (keplerStep mu x dt).M = x.M + meanMotion mu x.a * dt := by simp [keplerStep_eq]
+  rw [hM] at h
+  generalize x.M + meanMotion mu x.a * dt = M at h ⊢
+  generalize x.e = e at h h0 h1 ⊢
+  obtain ⟨X, hR, hd⟩ := kpM2eLoop_exit fuel e M _ _ E rfl h
+  have hD : 0 < 1 - e * Real.cos X := by nlinarith [Real.neg_one_le_cos X, Real.cos_le_one X]
+  have hD2 : 1 - e * Real.cos X ≤ 1 + e := by nlinarith [Real.neg_one_le_cos X, Real.cos_le_one X]
+  simp only [kpM2eNext, if_pos h1, cos, sin] at hR
+  have hstep : (E - X) * (1 - e * Real.cos X) = M - X + e * Real.sin X := by
+    rw [hR]; field_simp; ring
+  have hres : |M - X + e * Real.sin X| < kpM2eTol * (1 + e) := by
+    rw [← hstep, abs_mul, abs_of_pos hD]
+    calc |E - X| * (1 - e * Real.cos X) ≤ |E - X| * (1 + e) := by gcongr
+      _ < kpM2eTol * (1 + e) := by gcongr
+  have hsin := Real.abs_sin_sub_sin_le E X
+  have key : E - e * Real.sin E - M = (E - X) - e * (Real.sin E - Real.sin X) - (M - X + e * Real.sin X) := by ring
+  rw [key]
+  have h3 : |e * (Real.sin E - Real.sin X)| ≤ e * |E - X| := by
+    rw [abs_mul, abs_of_nonneg h0]; gcongr
+  have hT := kpM2eTol_pos
+  calc |E - X - e * (Real.sin E - Real.sin X) - (M - X + e * Real.sin X)|
+      ≤ |E - X - e * (Real.sin E - Real.sin X)| + |M - X + e * Real.sin X| := abs_sub _ _
+    _ ≤ |E - X| + |e * (Real.sin E - Real.sin X)| + |M - X + e * Real.sin X| := by gcongr; exact abs_sub _ _
+    _ < 2 * kpM2eTol * (1 + e) := by nlinarith
+
+/-- the loop does return values: circular orbit, `M = 0`: one test of the exit condition -/
+example : kpM2e 1 0 0 = some 0 := by
+  simp [kpM2e, kpM2eLoop, kpM2eStart, kpM2eNext, kpM2eContinue, kpM2eTol]
+  norm_num
+
 /-! ## Kepler — cartesian level, through the form round trip (hypotheses from C01)
 
 `toMean` is the orbit setter of the propagator (`orbit.copy(form="keplerian_mean")`), `toCart` the final
